@@ -435,7 +435,212 @@ def _in_check_call(node, parents):
     return False
 
 
+def _formula_cases(fn):
+    """[(condition literals, sign restriction or None, expression node, spellings of the data variable)] of a transformation given either as
+    a decision table of returned expressions or as stores into a result buffer under masks `m = data >= 0` / `~m` (YeoJohnson)."""
+    import re as _re
+    from ..small import UnrollError, _cond_atoms, return_cases
+
+    param = fn.args.args[1].arg if len(fn.args.args) > 1 else "data"
+    masks = {}
+    for st in fn.body:
+        if isinstance(st, ast.Assign) and len(st.targets) == 1 and isinstance(st.targets[0], ast.Name) and isinstance(st.value, ast.Compare) and len(st.value.ops) == 1 \
+                and ast.unparse(st.value.left) == param and ast.unparse(st.value.comparators[0]) in ("0", "0.0"):
+            op = st.value.ops[0]
+            if isinstance(op, (ast.GtE, ast.Gt)):
+                masks[st.targets[0].id] = 1
+            elif isinstance(op, (ast.Lt, ast.LtE)):
+                masks[st.targets[0].id] = -1
+    out = []
+    if masks:
+        def mask_sign(sl):
+            if isinstance(sl, ast.Name) and sl.id in masks:
+                return masks[sl.id]
+            if isinstance(sl, ast.UnaryOp) and isinstance(sl.op, ast.Invert) and isinstance(sl.operand, ast.Name) and sl.operand.id in masks:
+                return -masks[sl.operand.id]
+            return None
+
+        def walk(stmts, conds):
+            for st in stmts:
+                if isinstance(st, ast.If):
+                    walk(st.body, conds + _cond_atoms(st.test, True))
+                    walk(st.orelse, conds + _cond_atoms(st.test, False))
+                elif isinstance(st, ast.Assign) and len(st.targets) == 1 and isinstance(st.targets[0], ast.Subscript) and isinstance(st.targets[0].value, ast.Name):
+                    sg = mask_sign(st.targets[0].slice)
+                    if sg is None:
+                        raise AnalysisError("store %s is not under a sign mask of the data" % norm_stmt(st)[:60])
+                    names = {"%s[%s]" % (param, ast.unparse(st.targets[0].slice))}
+                    out.append((frozenset(conds), sg, st.value, names))
+
+        walk(fn.body, [])
+        return out
+    try:
+        for conds, txt in return_cases(fn):
+            out.append((conds, None, ast.parse(txt, mode="eval").body, {param, "np.asanyarray(%s)" % param, "np.asarray(%s)" % param}))
+    except UnrollError as e:
+        raise AnalysisError("formula of %s is not a decision table: %s" % (fn.name, e))
+    del _re
+    return out
+
+
+def derivative_is_derivative(ctx, rule="R18.8"):
+    """The reported derivative of every normalizer is the derivative of its normalisation, as formulas: d/dx of each branch of `_normalize`
+    (differentiated by the textbook rules, np.abs / np.sign resolved separately for x > 0 and x < 0, a special-value branch
+    `np.isclose(self.lmbda, c)` taken at lmbda = c) has the same canonical sum of power products as the matching branch of `_derivative`."""
+    import re as _re
+    from .. import diffalg as DA
+    from ..small import negation_text
+
+    prog = ctx.prog
+    base = prog.cls(NB, "Normalizer")
+    n = 0
+    for ci in prog.subclasses(base):
+        fn_n, fn_d = ci.methods.get("_normalize"), ci.methods.get("_derivative")
+        if fn_n is None or fn_d is None:
+            continue
+        site = "%s::%s" % (ci.module.relpath, ci.name)
+        ncases, dcases = _formula_cases(fn_n), _formula_cases(fn_d)
+        # lower end of the declared input range: 0 -> only x > 0 is in the range; -shift -> (shift + x) is positive on the range
+        lo = None
+        for st in ci.node.body:
+            if isinstance(st, ast.Assign) and ast.unparse(st.targets[0]) == "normalize_range" and isinstance(st.value, ast.Tuple):
+                lo = ast.unparse(st.value.elts[0])
+        g = ci.getters.get("normalize_range")
+        if g is not None:
+            rets = [r.value for r in ast.walk(g) if isinstance(r, ast.Return) and isinstance(r.value, ast.Tuple)]
+            lo = ast.unparse(rets[0].elts[0]) if len(rets) == 1 else "?"
+        if lo not in (None, "0.0", "0", "-self.shift", "-np.inf"):
+            ctx.undecided(rule, site, "lower end of normalize_range not understood (%s): monotonicity on the range is not decided" % lo)
+            lo = "?"
+        pos_sums = (DA.vkey(DA.canon(DA.add(DA.sym("S"), DA.sym("x")))),) if lo == "-self.shift" else ()
+        for conds, sg_n, e_n, names_n in ncases:
+            fixed = {}
+            for c in conds:
+                m = _re.fullmatch(r"np\.isclose\(self\.(\w+), ([-0-9.]+)\)", c)
+                if m:
+                    fixed[{"lmbda": "L", "shift": "S"}.get(m.group(1), m.group(1))] = m.group(2)
+            for sign in ((sg_n,) if sg_n else (1, -1)):
+                for dconds, sg_d, e_d, names_d in dcases:
+                    if sg_d and sg_d != sign:
+                        continue
+                    if any(negation_text(c) in conds for c in dconds):
+                        continue
+                    try:
+                        tn = DA.from_ast(e_n, names_n, sign)
+                        td = DA.from_ast(e_d, names_d, sign)
+                        for s_, v_ in fixed.items():
+                            tn, td = DA.substitute(tn, s_, DA.num(v_)), DA.substitute(td, s_, DA.num(v_))
+                        dn = DA.canon(DA.diff(tn))
+                        dd = DA.canon(td)
+                    except DA.DiffError as ex:
+                        ctx.undecided(rule, site, "formula outside the algebra: %s" % ex)
+                        continue
+                    n += 1
+                    where = "%s, %s" % ("x > 0" if sign > 0 else "x < 0", ", ".join(sorted(conds)) or "all parameters")
+                    ctx.check(DA.same(dn, dd), rule, site, "[%s] d/dx normalize = %s ; reported derivative = %s" % (where, DA.vtext(dn), DA.vtext(dd)),
+                              "derivative:%s:%s" % ("pos" if sign > 0 else "neg", ",".join(sorted(conds))))
+                    # strictly increasing: the derivative is ONE power product with a positive coefficient; its bases are the affine arguments of the
+                    # logarithms / powers of the transformation, which R18.1 proves positive on the declared range, and exp(.) > 0
+                    if sign < 0 and lo in ("0.0", "0"):
+                        continue  # x < 0 is outside the declared range
+                    if lo == "?":
+                        continue
+                    mono = DA.sign_on(dn, sign, positive_sums=pos_sums) == 1
+                    ctx.check(mono, rule, site, "[%s] d/dx normalize = %s is a single power product that is positive on this half line (strictly increasing on the range)" % (where, DA.vtext(dn)),
+                              "monotone:%s:%s" % ("pos" if sign > 0 else "neg", ",".join(sorted(conds))))
+    ctx.floor(rule, "normalize branches compared with the reported derivative", n, 16)
+
+
+def _odd_form(e, param):
+    """`np.sign(data) * F(np.abs(data))` -> F as an expression in the placeholder name `__t`; None when the expression is not of that form"""
+    class R(ast.NodeTransformer):
+        def visit_Call(self, n):
+            if ast.unparse(n) == "np.abs(%s)" % param:
+                return ast.Name("__t", ast.Load())
+            return self.generic_visit(n)
+
+    def factors(x):
+        if isinstance(x, ast.BinOp) and isinstance(x.op, ast.Mult):
+            return factors(x.left) + factors(x.right)
+        if isinstance(x, ast.BinOp) and isinstance(x.op, ast.Div):
+            return factors(x.left) + [("/", x.right)]
+        return [x]
+
+    fs = factors(e)
+    sg = [f for f in fs if not isinstance(f, tuple) and ast.unparse(f) == "np.sign(%s)" % param]
+    if len(sg) != 1:
+        return None
+    rest = None
+    for f in fs:
+        if f is sg[0]:
+            continue
+        node = f[1] if isinstance(f, tuple) else f
+        rest = node if rest is None else (ast.BinOp(rest, ast.Div() if isinstance(f, tuple) else ast.Mult(), node))
+    if rest is None:
+        return None
+    import copy as _copy
+
+    out = R().visit(_copy.deepcopy(rest))
+    if any(isinstance(x, ast.Name) and x.id == param for x in ast.walk(out)):
+        return None
+    return ast.fix_missing_locations(out)
+
+
+def round_trip(ctx, rule="R18.9"):
+    """denormalize(normalize(x)) = x as formulas: the normalisation branch substituted into the matching denormalisation branch reduces
+    to x in the power / log / exp normal form (x^a)^b = x^(ab), exp(c log u) = u^c, log(exp E) = E - identities that hold on the
+    declared ranges, which R18.1 decides separately.  Odd extensions sign(x) F(|x|) are composed on t = |x|."""
+    import re as _re
+    from .. import diffalg as DA
+    from ..small import negation_text
+
+    prog = ctx.prog
+    base = prog.cls(NB, "Normalizer")
+    n = 0
+    for ci in prog.subclasses(base):
+        fn_n, fn_d = ci.methods.get("_normalize"), ci.methods.get("_denormalize")
+        if fn_n is None or fn_d is None:
+            continue
+        site = "%s::%s" % (ci.module.relpath, ci.name)
+        pn = fn_n.args.args[1].arg
+        pd = fn_d.args.args[1].arg
+        for conds, sg_n, e_n, names_n in _formula_cases(fn_n):
+            fixed = {}
+            for c in conds:
+                m = _re.fullmatch(r"np\.isclose\(self\.(\w+), ([-0-9.]+)\)", c)
+                if m:
+                    fixed[{"lmbda": "L", "shift": "S"}.get(m.group(1), m.group(1))] = m.group(2)
+            for dconds, sg_d, e_d, names_d in _formula_cases(fn_d):
+                if any(negation_text(c) in conds for c in dconds) or any(negation_text(c) in dconds for c in conds):
+                    continue
+                if sg_n and sg_d and sg_n != sg_d:
+                    continue
+                odd_n, odd_d = _odd_form(e_n, pn), _odd_form(e_d, pd)
+                for sign in ((sg_n or sg_d,) if (sg_n or sg_d) else (1, -1)):
+                    try:
+                        if odd_n is not None and odd_d is not None:
+                            tn = DA.from_ast(odd_n, {"__t"}, 1)
+                            td = DA.from_ast(odd_d, {"__never__"}, 1, subst={"__t": tn})
+                            want = DA.sym("x")
+                        else:
+                            tn = DA.from_ast(e_n, names_n, sign)
+                            td = DA.from_ast(e_d, set(), sign, subst={k_: tn for k_ in names_d})
+                            want = DA.sym("x")
+                        for s_, v_ in fixed.items():
+                            td = DA.substitute(td, s_, DA.num(v_))
+                        got = DA.canon(td)
+                    except DA.DiffError as ex:
+                        ctx.undecided(rule, site, "formula outside the algebra: %s" % ex)
+                        continue
+                    n += 1
+                    where = "%s, %s" % ("t = |x|" if odd_n is not None and odd_d is not None else ("x > 0" if sign > 0 else "x < 0"), ", ".join(sorted(conds)) or "all parameters")
+                    ctx.check(DA.same(got, DA.canon(want)), rule, site, "[%s] denormalize(normalize(x)) = %s" % (where, DA.vtext(got)), "round-trip:%s:%s" % ("pos" if sign > 0 else "neg", ",".join(sorted(conds))))
+    ctx.floor(rule, "normalize / denormalize branch pairs composed", n, 16)
+
+
 def run(ctx):
+    round_trip(ctx)
+    derivative_is_derivative(ctx)
     from ..small import none_default_rule
 
     raw_data_discipline(ctx)
@@ -450,5 +655,5 @@ def run(ctx):
         "Decides the structural clauses of C18: (R18.1) for every normalizer, every transform direction and every sign class of its parameters (order types of the parameter against the "
         "special values 0, 2 and the sign changes of the coefficients; closed expressions folded), the declared open range equals the interval on which the transform's partial "
         "operations (log, log1p, non-integer powers of operands affine in the data) are defined; (R18.2) apply/remove pipelines are mirror images and all users pass the field's own settings; "
-        "(R18.3) special-value predicates and inverse elementary functions/exponents are paired; (R18.4) NaN template and open-interval range test. NOT decided: monotonicity, derivative, likelihood/fit."
+        "(R18.3) special-value predicates and inverse elementary functions/exponents are paired; (R18.4) NaN template and open-interval range test. (R18.8) the reported derivative is the formula derivative of the normalisation, branch by branch. (R18.9) denormalize(normalize(x)) reduces to x branch by branch; the derivative is a single positive power product (monotone). NOT decided: likelihood/fit."
     )
